@@ -37,6 +37,8 @@ C01(c) == LET o == c.obs IN
 (* ---------------------------------------------------------------- C02 ---- *)
 MockImplements(m) ==
     /\ m.found /\ m.isStruct
+    \* a mock is generic exactly if its interface is (a generic mock of a plain interface implements nothing as it stands)
+    /\ Len(m.tparams) = Len(m.ifaceTParams)
     /\ (~m.generic) => m.assignable
     /\ m.generic => \A i \in DOMAIN m.instances :
                        (m.instances[i].ifaceOK /\ m.instances[i].mockOK) => (m.instances[i].assignable /\ m.instances[i].sigsEqual)
@@ -88,6 +90,7 @@ NeedsSync(o) == \E i \in DOMAIN o.mocks : o.mocks[i].ifaceSigs # <<>>
 C11(c) == LET o == c.obs
               im == o.imports IN
     /\ o.importsOK                                                  \* the import declarations parse at all
+    /\ o.missingImport = <<>>                                       \* no type is written without the import of its package
     /\ Distinct([i \in DOMAIN im |-> im[i].path])                  \* each package once
     /\ \A i \in DOMAIN im : im[i].alias \notin {".", "_"}            \* never dot or blank
     /\ \A i \in DOMAIN im : im[i].used                               \* nothing else
